@@ -15,7 +15,7 @@
 (* The clause names say which property a failure belongs to (c01_ / c02_ / *)
 (* c10_); each check reports only its own clauses.                         *)
 (***************************************************************************)
-EXTENDS Grid, KruegerTM, Ellipsoids, Json, IOUtils
+EXTENDS Grid, KruegerTM, Ellipsoids, Trig, Json, IOUtils
 
 Data   == JsonDeserialize(IOEnv.TRACE_FILE)
 Traces == Data.traces
@@ -154,8 +154,33 @@ TMChecks(o) ==
      IN F(TMRatios(n, o.tri, o.tdl), RectRadius(FromJ(o.ell.a), n),
           Deg(AtanPos(IF o.tdl[1] < 0 THEN -o.tdl[1] ELSE o.tdl[1], o.tdl[2])))
 
+\* the same at ANY position within 30 degrees of the central meridian: sines and cosines of the latitude and of the longitude
+\* difference from the specification's own series (Trig), the exact projection from KruegerTM's generic form
+FoldDl(d) == IF Gt(d, D180) THEN Sub(d, D360) ELSE IF Lt(d, Neg(D180)) THEN Add(d, D360) ELSE d
+TMAChecks(o) ==
+  LET prj == Prj(o.prj)
+      n == ThirdFlat(FromJ(o.ell.invf), FromJ(o.n0))
+      lat == FromJ(o.lat)
+      dl == FoldDl(Sub(FromJ(o.lon), FromInt(CMdeg(prj, o.fwd.zone))))
+  IN IF ~NOK(FromJ(o.ell.invf), n) THEN << <<"oracle_start_value", FALSE>> >>
+     ELSE
+     Let(<<SinCosDeg(lat), SinCosDeg(dl)>>, LAMBDA sc :
+     Let(TMRatiosSC(n, sc[1][1], sc[1][2], sc[2][1], sc[2][2]), LAMBDA t :
+     Let(RectRadius(FromJ(o.ell.a), n), LAMBDA AA :
+     LET sgn == IF IsZero(dl) \/ IsZero(lat) THEN 0 ELSE IF dl.neg = lat.neg THEN -1 ELSE 1        \* sign(conv) = - sign(dl) sign(lat)
+         convExp == MulSmall(Deg(ConvMagnitudeSC(sc[2][1], sc[2][2], t)), sgn)
+     IN << <<"oracle_residuals", ResidualsOK(t.res)>>,
+           <<"c01_shipped_ellipsoid_constants", ConstantsOK(o.ell.name, FromJ(o.ell.a), FromJ(o.ell.invf))>>,
+           <<"c01_tm_easting", Within(E(o), Add(prj.fe, Mul(prj.k0, Mul(AA, t.eta))), Mm02)>>,
+           <<"c01_tm_northing", Within(N(o), Add(FNeff(prj, o.fwd.hemi), Mul(prj.k0, Mul(AA, t.xi))), Mm02)>>,
+           <<"c10_tm_scale_factor", Within(FromJ(o.fwd.psf), Mul(prj.k0, ScaleOverK0SC(FromJ(o.ell.a), n, sc[1][1], sc[1][2], t)), Add(Psf2e8, Half8))>>,
+           <<"c10_tm_convergence", sgn = 0 \/ Within(FromJ(o.fwd.conv), convExp, Deg1e9)>>,
+           <<"c02_tm_inverse_lat", ~GridOK(E(o), N(o)) \/ o.inv.exc # "" \/ Within(FromJ(o.inv.lat), lat, Dec(2500, 3))>>,
+           <<"c02_tm_inverse_lon", ~GridOK(E(o), N(o)) \/ o.inv.exc # "" \/ Within(FromJ(o.inv.lon), FromJ(o.lon), LonEnv(o))>> >>)))
+
 Checks(ev) == CASE ev.k = "P" -> PChecks(ev.o)
                 [] ev.k = "TM" -> TMChecks(ev.o)
+                [] ev.k = "TMA" -> TMAChecks(ev.o)
                 [] ev.k = "CM" -> CMChecks(ev.o)
                 [] ev.k = "PAIR" -> PairChecks(ev.rel, ev.a, ev.b)
                 [] ev.k = "IRT" -> IRTChecks(ev.o)
